@@ -235,6 +235,13 @@ class C11(Check):
         b = bytes(b)
         outs = []
         t = None
+        if tam and tam[0] == 'protected' and verify and tam[1] % 2 == 0:
+            # history: the genuine image has been loaded (and verified) in this process before the altered one arrives
+            info['prior-genuine-load'] = 1
+            try:
+                TitleMetadataReader.load(io.BytesIO(orig), verify_hashes=True)
+            except Exception:  # noqa
+                pass
         try:
             t = TitleMetadataReader.load(io.BytesIO(b), verify_hashes=verify)
             outs.append(render(t))
